@@ -496,6 +496,51 @@ func groupHistory(s *sink, g *hx.Gen) {
 			}
 		}
 	}
+	// every fifth history: presence rules naming several other fields, fed every combination of set
+	// fields in random order (a rejected call must not rewrite the rule lists of the schema)
+	if unitPool == nil && g.R.Intn(5) == 0 {
+		names := []string{"user", "group", "role", "token"}
+		nn := 3 + g.R.Intn(2)
+		props := make([]hx.NamedProp, nn)
+		for i := range props {
+			props[i] = hx.NamedProp{Name: names[i], P: &hx.Prop{Ty: &hx.Ty{T: "int"}}}
+		}
+		others := func(i int) []string {
+			var o []string
+			for j := range props {
+				if j != i {
+					o = append(o, names[j])
+				}
+			}
+			g.R.Shuffle(len(o), func(a, b int) { o[a], o[b] = o[b], o[a] })
+			return o[:2+g.R.Intn(len(o)-1)]
+		}
+		for k := 0; k < 1+g.R.Intn(2); k++ {
+			i := g.R.Intn(nn)
+			switch g.R.Intn(3) {
+			case 0:
+				props[i].P.RequiredIf = others(i)
+			case 1:
+				props[i].P.RequiredIfNot = others(i)
+			default:
+				props[i].P.Conflicts = others(i)
+			}
+		}
+		t = &hx.Ty{T: "scope", Root: "R", Objs: []hx.NamedObj{{ID: "R", Ty: &hx.Ty{T: "obj", ID: "R", Props: props}}}}
+		for rep := 0; rep < 2; rep++ {
+			for mask := 0; mask < 1<<nn; mask++ {
+				m := hx.StrAny()
+				for i := range props {
+					if mask&(1<<i) != 0 {
+						m.M = append(m.M, [2]*hx.Val{hx.Str(names[i]), hx.Int("int64", int64(i+1))})
+					}
+				}
+				unitPool = append(unitPool, m)
+			}
+		}
+		g.R.Shuffle(len(unitPool), func(a, b int) { unitPool[a], unitPool[b] = unitPool[b], unitPool[a] })
+		s.stats["history:rules"]++
+	}
 	used := t.Build()
 	describe := func() string {
 		r := hx.Guard(func() hx.Result {
@@ -515,6 +560,9 @@ func groupHistory(s *sink, g *hx.Gen) {
 	}
 	before := describe()
 	n := 5 + g.R.Intn(20)
+	if t.T == "scope" && t.Root == "R" && len(unitPool) > 0 {
+		n = len(unitPool)
+	}
 	var natives []any
 	for i := 0; i < n; i++ {
 		op := []string{"U", "U", "U", "C", "V", "S"}[g.R.Intn(6)]
@@ -880,6 +928,54 @@ func groupRules(s *sink, g *hx.Gen) {
 			}
 			if len(viol) > 0 && r.R == "ok" {
 				s.finding(Finding{Prop: "C03", What: "an input violating a presence rule is accepted", Cases: []int{id}, Schema: t, Input: arg, Detail: viol})
+			}
+		}
+	}
+	// rejections that start as plain errors below the same containers: the short form of a
+	// single-property object given a value its property rejects, and nil where a one-of is expected.
+	// The element must still be named by the full container path.
+	if len(wraps) == 0 {
+		wraps = append(wraps, wrap{func(t *hx.Ty) *hx.Ty { return &hx.Ty{T: "list", Item: t} },
+			func(v *hx.Val) *hx.Val { return hx.List(v) }, "[0]"})
+	}
+	one := "1"
+	single := &hx.Ty{T: "obj", ID: "Only", Props: []hx.NamedProp{{Name: "only", P: &hx.Prop{Ty: &hx.Ty{T: "int", Min: &one}, Required: true}}}}
+	singleList := &hx.Ty{T: "obj", ID: "OnlyL", Props: []hx.NamedProp{{Name: "items", P: &hx.Prop{Ty: &hx.Ty{T: "list", Item: &hx.Ty{T: "int"}, Min: &one}, Required: true}}}}
+	oneOf := &hx.Ty{T: "oneOf", Disc: "kind", Members: []hx.Member{
+		{Key: "a", Ty: &hx.Ty{T: "obj", ID: "MA", Props: []hx.NamedProp{{Name: "x", P: &hx.Prop{Ty: &hx.Ty{T: "int"}}}}}},
+		{Key: "b", Ty: &hx.Ty{T: "obj", ID: "MB", Props: []hx.NamedProp{{Name: "y", P: &hx.Prop{Ty: &hx.Ty{T: "str"}}}}}}}}
+	type plain struct {
+		ty   *hx.Ty
+		v    *hx.Val
+		what string
+	}
+	for _, pc := range []plain{
+		{single, hx.Str("x"), "short form, value not a number"},
+		{single, hx.Int("int64", -5), "short form, value below the minimum"},
+		{single, hx.Str(""), "short form, empty string for a number"},
+		{single, hx.List(hx.Int("int64", 1)), "short form, a list for a number"},
+		{singleList, hx.List(), "short form, list too short"},
+		{singleList, hx.List(hx.Str("x")), "short form, list item not a number"},
+		{oneOf, hx.Nil(), "nil for a one-of"},
+		{oneOf, hx.Int("int64", 3), "a number for a one-of"},
+	} {
+		pt := pc.ty
+		pv := pc.v
+		var path []string
+		for _, w := range wraps {
+			pt = w.ty(pt)
+			pv = w.val(pv)
+			path = append([]string{w.seg}, path...)
+		}
+		r, id, _ := s.emit("U", pt, pv, nil, false, "path", "rules:plain")
+		s.stats["rules:plain"]++
+		if r.R == "ok" {
+			s.finding(Finding{Prop: "C03", What: "invalid element accepted (" + pc.what + ")", Cases: []int{id}, Schema: pt, Input: pv})
+		} else if r.R == "err" {
+			got := stripMarkers(r.Path)
+			if r.C == nil || !*r.C || len(got) < len(path) || !samePath(got[:len(path)], path) {
+				s.finding(Finding{Prop: "C17", What: "rejection does not name the offending element (" + pc.what + ")",
+					Cases: []int{id}, Schema: pt, Input: pv, Detail: []string{"expected a path starting with " + pathText(path), "got " + r.JSON()}})
 			}
 		}
 	}
